@@ -4,12 +4,47 @@ import (
 	"flag"
 	"fmt"
 	"os"
+	"path/filepath"
 	"sort"
+	"strings"
 	"strconv"
 	"time"
 )
 
 var registry = map[string]func(c *Ctx){}
+
+type multiFlag []string
+
+func (m *multiFlag) String() string     { return strings.Join(*m, ";") }
+func (m *multiFlag) Set(s string) error { *m = append(*m, s); return nil }
+
+// buildOverlay applies textual replacements to copies of repo files held in memory.
+func buildOverlay(repo string, muts []string) (map[string][]byte, error) {
+	if len(muts) == 0 {
+		return nil, nil
+	}
+	ov := map[string][]byte{}
+	for _, m := range muts {
+		parts := strings.SplitN(m, "|", 3)
+		if len(parts) != 3 {
+			return nil, fmt.Errorf("bad -mut %q", m)
+		}
+		path := filepath.Join(repo, parts[0])
+		src, ok := ov[path]
+		if !ok {
+			b, err := os.ReadFile(path)
+			if err != nil {
+				return nil, err
+			}
+			src = b
+		}
+		if n := strings.Count(string(src), parts[1]); n != 1 {
+			return nil, fmt.Errorf("%s: pattern occurs %d times (need exactly 1): %q", parts[0], n, parts[1])
+		}
+		ov[path] = []byte(strings.Replace(string(src), parts[1], parts[2], 1))
+	}
+	return ov, nil
+}
 
 func main() {
 	prop := flag.String("prop", "", "property id (C01..C20)")
@@ -18,7 +53,15 @@ func main() {
 	verif := flag.String("verif", "/verif", "verif root")
 	replay := flag.String("replay", "", "replay file: re-evaluate exactly that obligation")
 	dump := flag.Bool("dump", false, "print all obligations")
+	dbg := flag.String("trace", "", "debug: print traces of a function (FuncKey)")
+	var muts multiFlag
+	flag.Var(&muts, "mut", "debug/self-test: in-memory mutation 'relpath|old|new' (repeatable); files on disk are not touched")
 	flag.Parse()
+	overlay, err := buildOverlay(*repo, muts)
+	if err != nil {
+		fmt.Println("mutation not applicable:", err)
+		os.Exit(3)
+	}
 	if *tier == "" {
 		*tier = os.Getenv("VERIF_TIER")
 	}
@@ -26,6 +69,15 @@ func main() {
 		*tier = "quick"
 	}
 	seed, _ := strconv.ParseInt(os.Getenv("VERIF_SEED"), 10, 64)
+	if *dbg != "" {
+		p, err := LoadProgram(*repo, overlay, nil, "")
+		if err != nil {
+			fmt.Println(err)
+			os.Exit(2)
+		}
+		debugTrace(p, *dbg)
+		return
+	}
 	run, ok := registry[*prop]
 	if !ok {
 		var ids []string
@@ -38,7 +90,7 @@ func main() {
 	}
 	t0 := time.Now()
 	code := func() (code int) {
-		p, err := LoadProgram(*repo, nil, nil, "")
+		p, err := LoadProgram(*repo, overlay, nil, "")
 		if err != nil {
 			// the tree does not type-check: fail closed
 			fmt.Printf("  load failed: %v\n", err)
